@@ -141,7 +141,7 @@ def grammars_for(route: str, name: str, fields) -> list[tuple[str, str]]:
     r = asyncio.run(CompileGrammarTool().execute(content=text))
     if r.get("status") == "success" and isinstance(r.get("grammar"), str):
         out.append((f"octave_compile_grammar({route})", r["grammar"]))
-    r = asyncio.run(EjectTool().execute(content=text, format="gbnf"))
+    r = asyncio.run(EjectTool().execute(content=text, schema="META", format="gbnf"))
     if isinstance(r.get("output"), str) and r.get("format") == "gbnf":
         out.append((f"octave_eject(gbnf, {route})", r["output"]))
     return out
@@ -289,3 +289,42 @@ def replay_packaged(name: str):
     r = asyncio.run(CompileGrammarTool().execute(schema=name))
     ps = problems(r.get("grammar", "")) if r.get("status") == "success" else []
     return bool(ps), f"octave_compile_grammar(schema={name!r}): {ps[:2] or 'well-formed'}"
+
+
+# ---- B3: llama.cpp's real rule-name alphabet (no underscore) ------------------------------------------------------------------
+
+
+def replay_strict(fields):
+    from octave_mcp.core.gbnf_compiler import GBNFCompiler
+
+    s = _schema_from_api("S", [(f, ["REQ"]) for f in fields])
+    g = GBNFCompiler().compile_schema(s, include_envelope=True)
+    strict = gbnf.check_wellformed(g, allow_underscore=False)
+    return bool(strict), f"fields {fields}: llama.cpp's name rule: {strict[:1] or 'accepted'}"
+
+
+def ob_b3(ctx: Ctx) -> Outcome:
+    """Under llama.cpp's own is_word_char (letters, digits, '-') the same grammars must parse too. Grammars that
+    fail ONLY because a rule name contains '_' are one class (known finding: the sanitiser writes '_' and the
+    repository's tests pin those names); any other strict-only rejection is a different class."""
+    from octave_mcp.core.gbnf_compiler import GBNFCompiler
+
+    wits, seen = [], set()
+    n = 0
+    for fields in (["STATUS"], ["MY_FIELD"], ["A.B"], ["A-B"], ["1A"], ["é"], ["WS"], ["A", "a"], ["x/y"]):
+        n += 1
+        s = _schema_from_api("S", [(f, ["REQ"]) for f in fields])
+        g = GBNFCompiler().compile_schema(s, include_envelope=True)
+        if gbnf.check_wellformed(g, allow_underscore=True):
+            continue  # reported by B1
+        only = gbnf.strict_only_rejections(g)
+        if not only:
+            continue
+        key = "strict-name-rule|underscore" if all("contains '_'" in o for o in only) else f"strict-name-rule|other:{only[0][:40]}"
+        if key not in seen:
+            seen.add(key)
+            wits.append(Witness(what=f"fields {fields}: {only[0]}", key=key, input=fields, replay={"runner": "props.C12_b:replay_strict", "args": {"fields": fields}}, confirmed=True))
+    extra = dict(bound="9 small schemas compiled with envelope and read under llama.cpp's rule-name alphabet [a-zA-Z0-9-]", evaluations=n, distinct_nontrivial=n, rule="a case is one schema")
+    if wits:
+        return Outcome.refuted("independent GBNF reader (strict names)", wits, **extra)
+    return Outcome.ok("independent GBNF reader (strict names)", **extra)
